@@ -33,6 +33,7 @@ import (
 
 	sdkmath "cosmossdk.io/math"
 	sdk "github.com/cosmos/cosmos-sdk/types"
+	banktypes "github.com/cosmos/cosmos-sdk/x/bank/types"
 	stakingtypes "github.com/cosmos/cosmos-sdk/x/staking/types"
 	"github.com/ethereum/go-ethereum/common"
 	evmtypes "github.com/evmos/ethermint/x/evm/types"
@@ -70,6 +71,8 @@ type env struct {
 	cross   common.Address
 	wfx     common.Address              // ERC-20 face of FX (token pair of the default denom); zero if set-up failed
 	tst     common.Address              // a native ERC-20 (owner external) registered with an eth bridge alias; zero if set-up failed
+	hookTok  []common.Address           // native ERC-20s whose transferFrom runs the code of hookAddr[k] (a generated program)
+	hookAddr []common.Address
 	txids   map[common.Address][]uint64 // prepared outgoing pool txs per pool contract
 	reqGas  map[string]uint64
 	writer  map[string]bool
@@ -79,6 +82,16 @@ type env struct {
 func poolAddr(i int) common.Address {
 	return common.BytesToAddress([]byte{0xC0, 0x9C, 0, 0, 0, 0, 0, 0, 0, 0, 0, 0, 0, 0, 0, 0, 0, 0, 0x10, byte(i + 1)})
 }
+
+func hookAddrOf(k int) common.Address {
+	return common.BytesToAddress([]byte{0xC0, 0x9C, 0, 0, 0, 0, 0, 0, 0, 0, 0, 0, 0, 0, 0, 0, 0, 0, 0x20, byte(k + 1)})
+}
+
+func hookTokOf(k int) common.Address {
+	return common.BytesToAddress([]byte{0xC0, 0x9C, 0, 0, 0, 0, 0, 0, 0, 0, 0, 0, 0, 0, 0, 0, 0, 0, 0x30, byte(k + 1)})
+}
+
+const nHook = 2
 
 func big18(n int64) sdkmath.Int { return sdkmath.NewInt(n).Mul(sdkmath.NewInt(1e18)) }
 
@@ -176,6 +189,32 @@ func setup(t *testing.T, out *hx.Out) *env {
 		}
 		e.tst = tok
 	}()
+	// hook tokens: externally owned native ERC-20s (registered like a governance-approved token) whose transferFrom runs a
+	// generated program in a hook contract that can itself hold stake and call the precompiles
+	for k := 0; k < nHook; k++ {
+		ha, ta := hookAddrOf(k), hookTokOf(k)
+		s.MintToken(ha.Bytes(), sdk.NewCoin(fxtypes.DefaultDenom, big18(1_000_000)))
+		delegate(ha.Bytes(), s.ValAddr[0], big18(1000))
+		delegate(ha.Bytes(), s.ValAddr[1], big18(1000))
+		s.App.StakingKeeper.SetAllowance(s.Ctx, s.ValAddr[0], e.owner.AccAddress(), ha.Bytes(), big18(100).BigInt())
+		if err := evmx.Install(s.Ctx, s.App, ha, []byte{0}); err != nil {
+			out.Count("setup:hook-install-error:" + firstLine(err.Error()))
+			continue
+		}
+		if err := evmx.Install(s.Ctx, s.App, ta, tokenCode(ha)); err != nil {
+			out.Count("setup:hook-token-install-error:" + firstLine(err.Error()))
+			continue
+		}
+		base := fmt.Sprintf("hook%d", k+1)
+		alias := crosschaintypes.NewBridgeDenom(ethtypes.ModuleName, helpers.GenExternalAddr(ethtypes.ModuleName))
+		s.App.EthKeeper.AddBridgeToken(s.Ctx, alias, alias)
+		s.App.Erc20Keeper.SetAliasesDenom(s.Ctx, base, alias)
+		s.App.BankKeeper.SetDenomMetaData(s.Ctx, banktypes.Metadata{Description: "hook token", Base: base, Display: base, Name: "Hook " + base, Symbol: strings.ToUpper(base),
+			DenomUnits: []*banktypes.DenomUnit{{Denom: base, Exponent: 0, Aliases: []string{alias}}, {Denom: strings.ToUpper(base), Exponent: 18}}})
+		s.App.Erc20Keeper.AddTokenPair(s.Ctx, erc20types.NewTokenPair(ta, base, true, erc20types.OWNER_EXTERNAL))
+		e.hookTok = append(e.hookTok, ta)
+		e.hookAddr = append(e.hookAddr, ha)
+	}
 	// pending claims for executeClaim: FX arriving from eth for fresh receivers (the eth module holds the FX)
 	s.MintTokenToModule(ethtypes.ModuleName, sdk.NewCoin(fxtypes.DefaultDenom, big18(1000)))
 	for k := 0; k < nClaim; k++ {
@@ -292,6 +331,9 @@ func frameNodes(p *program, tr *evmx.Tracer) map[int]*evmx.Node {
 			list = p.root
 		} else if pn, ok := res[f.Parent]; ok && pn.Op == "call" {
 			list = pn.Body
+		} else if ok && pn.Op == "pre" && p.inner[pn.ID] != nil && f.To == p.inner[pn.ID].tokNode.To {
+			res[i] = p.inner[pn.ID].tokNode // the ERC-20 call made from inside the native action
+			continue
 		} else {
 			continue
 		}
@@ -359,9 +401,10 @@ func (e *env) run(pctx sdk.Context, p *program, gasLimit uint64, traced bool) *r
 }
 
 // prune returns the program restricted to frames that were kept in the traced run.
-func prune(p *program, tr *evmx.Tracer) []*evmx.Node {
+func prune(p *program, tr *evmx.Tracer) *program {
+	q := &program{addrs: p.addrs, meta: p.meta, nodes: p.nodes, ctxOf: p.ctxOf, inner: map[int]*inner{}}
 	if len(tr.Frames) == 0 || !tr.Kept(0) {
-		return nil
+		return q
 	}
 	fn := frameNodes(p, tr)
 	keptNode := map[int]bool{}
@@ -384,6 +427,13 @@ func prune(p *program, tr *evmx.Tracer) []*evmx.Node {
 				if n.Op == "call" {
 					c.Body = cp(n.Body)
 				}
+				if in := p.inner[n.ID]; n.Op == "pre" && in != nil {
+					hn := *in.hookNode
+					hn.Body = cp(in.hookNode.Body)
+					tn := *in.tokNode
+					tn.Body = []*evmx.Node{&hn}
+					q.inner[n.ID] = &inner{k: in.k, tokNode: &tn, hookNode: &hn}
+				}
 				out = append(out, &c)
 				continue
 			}
@@ -395,7 +445,30 @@ func prune(p *program, tr *evmx.Tracer) []*evmx.Node {
 		}
 		return out
 	}
-	return cp(p.root)
+	q.root = cp(p.root)
+	return q
+}
+
+// install puts the program's contracts in place: the root tree and the hook contracts of the hook tokens in use
+func (e *env) install(ctx sdk.Context, p *program) error {
+	if err := evmx.InstallTree(ctx, e.s.App, p.addrs[0], p.root); err != nil {
+		return err
+	}
+	var err error
+	var walk func(list []*evmx.Node)
+	walk = func(list []*evmx.Node) {
+		for _, n := range list {
+			if n.Op == "call" {
+				walk(n.Body)
+			}
+			if in := p.inner[n.ID]; n.Op == "pre" && in != nil && err == nil {
+				err = evmx.InstallTree(ctx, e.s.App, in.hookNode.To, in.hookNode.Body)
+				walk(in.hookNode.Body)
+			}
+		}
+	}
+	walk(p.root)
+	return err
 }
 
 // costs measured on an ample-gas traced run -> program text for the model
@@ -493,6 +566,10 @@ func (e *env) progText(p *program, tr *evmx.Tracer) (string, uint64) {
 						an += 9000
 					}
 				}
+				synthetic := n.PcCall == tokenCallPc && len(n.OpPcs) == 13 && n.PcStart == 0
+				if synthetic {
+					an = 5*3 + 3 + 2 + 2600 // the token's fixed code: five PUSH1, PUSH20, GAS, CALL to the cold hook contract
+				}
 				callc, ok := sum(n.PcStart, n.PcCall)
 				ci, hasFrame := frameOf[n.ID]
 				if ok && hasFrame && !bad[key{frame, uint64(n.PcCall)}] {
@@ -532,7 +609,18 @@ func (e *env) progText(p *program, tr *evmx.Tracer) (string, uint64) {
 						extra = tr.Frames[ci].GasUsed - e.reqGas[mt.method]
 						e.cnt("cost:precompile-used-more-than-RequiredGas:" + mt.method)
 					}
-					parts = append(parts, fmt.Sprintf("P %d %s %d %s %d %s %d %s", n.ID, hdr, e.reqGas[mt.method], mt.mode, w, mt.method, extra, mt.logs))
+					// the EVM call made from inside the native action: own gas allowance, token program = CALL hook; return
+					innerTxt := "-"
+					if in := p.inner[n.ID]; in != nil {
+						g := uint64(30_000_000)
+						hf := -1
+						if ti, ok := frameOf[in.tokNode.ID]; ok {
+							g = tr.Frames[ti].Gas
+							hf = ti
+						}
+						innerTxt = fmt.Sprintf("[ %d %s T 18 ]", g, emit(in.tokNode.Body, hf))
+					}
+					parts = append(parts, fmt.Sprintf("P %d %s %d %s %d %s %d %s %s", n.ID, hdr, e.reqGas[mt.method], mt.mode, w, mt.method, extra, mt.logs, innerTxt))
 				}
 			}
 		}
@@ -566,8 +654,16 @@ func (e *env) gasPoints(rng *rand.Rand, p *program, amp *runObs, intrinsic uint6
 	}
 	var cuts []uint64
 	fnAmp := frameNodes(p, amp.tr)
+	underPre := func(i int) bool { // frame i runs inside a precompile call (on the gas allowance of an ERC-20 call)
+		for j := i; j > 0; j = amp.tr.Frames[j].Parent {
+			if n, ok := fnAmp[amp.tr.Frames[j].Parent]; ok && n.Op == "pre" {
+				return true
+			}
+		}
+		return false
+	}
 	for _, op := range amp.tr.Ops {
-		if _, mapped := fnAmp[op.Frame]; (mapped || op.Frame == 0) && op.Gas <= ampleGL {
+		if _, mapped := fnAmp[op.Frame]; (mapped || op.Frame == 0) && op.Gas <= ampleGL && !underPre(op.Frame) {
 			// (frames opened inside a precompile — ERC-20 calls — run on their own gas allowance: not thresholds of the tx)
 			cuts = append(cuts, ampleGL-op.Gas) // includes intrinsic; exact for depth 1, approximate (63/64) deeper
 		}
@@ -590,7 +686,7 @@ func (e *env) gasPoints(rng *rand.Rand, p *program, amp *runObs, intrinsic uint6
 	fn := frameNodes(p, amp.tr)
 	var pre []int
 	for i, n := range fn {
-		if n.Op == "pre" && n.Gas == 0 {
+		if n.Op == "pre" && n.Gas == 0 && !underPre(i) {
 			pre = append(pre, i)
 		}
 	}
@@ -652,7 +748,7 @@ func TestC09(t *testing.T) {
 		out.Reset()
 		p := e.genProgram(rng)
 		pctx, _ := e.s.Ctx.CacheContext()
-		if err := evmx.InstallTree(pctx, e.s.App, p.addrs[0], p.root); err != nil {
+		if err := e.install(pctx, p); err != nil {
 			t.Fatal(err)
 		}
 		amp := e.run(pctx, p, ampleGL, true)
@@ -685,7 +781,7 @@ func TestC09(t *testing.T) {
 			}
 			// reference: program pruned to the kept frames, ample gas
 			pr := prune(p, trc.tr)
-			key := fmt.Sprint(trc.kept, "|", ints(real.markers), "|", len(pr))
+			key := fmt.Sprint(trc.kept, "|", ints(real.markers), "|", len(pr.root))
 			var keptFrames []string
 			fn := frameNodes(p, trc.tr)
 			for i, n := range fn {
@@ -698,11 +794,10 @@ func TestC09(t *testing.T) {
 			ref, ok := refCache[key]
 			if !ok {
 				rctx, _ := e.s.Ctx.CacheContext()
-				if err := evmx.InstallTree(rctx, e.s.App, p.addrs[0], pr); err != nil {
+				if err := e.install(rctx, pr); err != nil {
 					t.Fatal(err)
 				}
-				rp := &program{root: pr, addrs: p.addrs, meta: p.meta, nodes: p.nodes, ctxOf: p.ctxOf}
-				ref = e.run(rctx, rp, ampleGL, false)
+				ref = e.run(rctx, pr, ampleGL, false)
 				refCache[key] = ref
 			}
 			refs := "same"
